@@ -4,7 +4,7 @@ func init() {
 	register(Harness{
 		Prop: "C16", Pkg: "storage/mem", Func: "VerifC16Deleted",
 		Quick:    [][]int64{{3, 0, 0}, {3, 1, 0}, {3, 0, 1}},
-		Thorough: [][]int64{{4, 0, 0}, {4, 1, 0}, {4, 0, 1}, {3, 1, 1}, {4, 2, 2}},
+		Thorough: [][]int64{{4, 0, 0}, {3, 1, 0}, {3, 0, 1}, {3, 2, 0}, {3, 0, 2}, {3, 2, 2}},
 		Unwind:   40,
 		Desc:     "k symbolic operations (deliver / remove / purge) on mem.New with cap and/or size limit and a listener registered through extension.Host: the deleted events seen after each operation are exactly the messages the reference model lets go (remove, purge, cap eviction, size eviction), one each",
 		Bounds:   "params (k operations, cap, maxkb); symbolic operation, mailbox, size from {400,700,1100}",
